@@ -5,6 +5,8 @@ import glob, json, os, re, shutil, subprocess, sys
 ROOT = os.path.dirname(os.path.dirname(os.path.abspath(__file__)))
 SCRATCH = '/tmp/wt/scratch'
 SRC = sys.argv[1] if len(sys.argv) > 1 else '/tmp/mut'
+OFFSET = int(sys.argv[2]) if len(sys.argv) > 2 else 0
+ROUND = sys.argv[3] if len(sys.argv) > 3 else '1'
 
 def sh(*a):
     return subprocess.run(a, capture_output=True, text=True)
@@ -17,7 +19,7 @@ for p in sorted(glob.glob(os.path.join(SRC, 'C*', '*', 'patch.diff'))):
         print('SKIP (not verified)', d, v)
         continue
     meta = json.load(open(os.path.join(d, 'meta.json')))
-    out = os.path.join(ROOT, 'seeded', f'{pid}-{k}')
+    out = os.path.join(ROOT, 'seeded', f'{pid}-{int(k) + OFFSET}')
     os.makedirs(out, exist_ok=True)
     shutil.copy(p, os.path.join(out, 'patch.diff'))
     demo = 'demo.py' if os.path.exists(os.path.join(d, 'demo.py')) else 'test_demo.py'
@@ -35,6 +37,7 @@ for p in sorted(glob.glob(os.path.join(SRC, 'C*', '*', 'patch.diff'))):
         'files': meta.get('files'),
         'mechanism': meta.get('mechanism'),
         'needs_to_manifest': meta.get('needs_to_manifest'),
+        'round': ROUND,
         'origin': 'written by an independent sub-agent that saw only the property text and a scratch worktree (nothing from /verif)',
         'baseline_commit': base_commit,
         'what_was_run': {
